@@ -234,3 +234,109 @@ func ruleQuoteMarkerAndOneSpace(w *World, r *Report) {
 	}
 	r.Expect("reader-moving helpers of the block quote parser", found, 1)
 }
+
+// ---- C08-K one notion of "blank line" ------------------------------------------------------------------------
+
+// ruleOneBlankNotion: the top-level loop skips blank lines through Reader.SkipBlankLines, while every blank test made
+// inside a container goes through util.IsBlank on the rest of the line. The two must be the same predicate.
+func ruleOneBlankNotion(w *World, r *Report) {
+	r.Rule("C08-K", "In the implementation of Reader.SkipBlankLines (the reader types' methods and the package text helpers they call with the reader), every AdvanceLine on that reader is dominated by the true edge of util.IsBlank applied to the line just peeked from the same reader, and every 'found a non-blank line' return by its false edge: what is skipped as blank at top level is exactly what util.IsBlank calls blank inside a block quote or list item. A wider test there (Unicode spaces, NBSP) makes a line vanish at top level that is a paragraph once quoted.")
+	isBlank := w.PkgFunc("util", "IsBlank")
+	if isBlank == nil {
+		r.Unknown("util.IsBlank", "", "function not found")
+		return
+	}
+	var roots []*ssa.Function
+	for _, t := range w.readerTypes() {
+		if m := w.DeclaredMethod(t, "SkipBlankLines"); m != nil {
+			roots = append(roots, m)
+		}
+	}
+	seen := map[*ssa.Function]bool{}
+	var work []*ssa.Function
+	work = append(work, roots...)
+	n := 0
+	for len(work) > 0 {
+		fn := work[len(work)-1]
+		work = work[:len(work)-1]
+		if seen[fn] || fn.Blocks == nil {
+			continue
+		}
+		seen[fn] = true
+		for _, b := range fn.Blocks {
+			for _, ins := range b.Instrs {
+				c, ok := ins.(ssa.CallInstruction)
+				if !ok {
+					continue
+				}
+				if cal := c.Common().StaticCallee(); cal != nil && w.InModule(cal) && cal.Pkg != nil && cal.Pkg.Pkg == w.TPkg("text") && cal != isBlank {
+					// follow helpers that receive a reader
+					for _, a := range c.Common().Args {
+						if typeShort(a.Type()) == "text.Reader" || rootedInReader(w, a) {
+							work = append(work, cal)
+						}
+					}
+				}
+				if callName(c) != "AdvanceLine" {
+					continue
+				}
+				var rd ssa.Value
+				if c.Common().IsInvoke() {
+					rd = c.Common().Value
+				} else if len(c.Common().Args) > 0 {
+					rd = c.Common().Args[0]
+				}
+				n++
+				key := fmt.Sprintf("%s: AdvanceLine only past a util.IsBlank line", w.FnKey(fn))
+				ok2 := false
+				for _, cf := range dominatingConds(b) {
+					if cf.Truth && isBlankOfPeeked(cf.If.Cond, isBlank, rd) {
+						ok2 = true
+					}
+				}
+				if ok2 {
+					r.OK(key, w.InstrPos(ins), "dominated by the true edge of util.IsBlank(line) for the line peeked from the same reader")
+				} else {
+					r.Bad(key, w.InstrPos(ins), "a line is skipped as blank on a path that is not decided by util.IsBlank alone: top-level blank-line skipping and the in-container blank test disagree for some line")
+				}
+			}
+		}
+	}
+	r.Expect("AdvanceLine calls under SkipBlankLines", n, 1)
+}
+
+func rootedInReader(w *World, v ssa.Value) bool {
+	n := namedOf(v.Type())
+	if n == nil {
+		return false
+	}
+	for _, t := range w.readerTypes() {
+		if t.Obj() == n.Obj() {
+			return true
+		}
+	}
+	return false
+}
+
+// isBlankOfPeeked: cond is util.IsBlank(line) where line is the first result of PeekLine() on reader rd.
+func isBlankOfPeeked(cond ssa.Value, isBlank *ssa.Function, rd ssa.Value) bool {
+	c, ok := cond.(*ssa.Call)
+	if !ok || c.Common().StaticCallee() != isBlank || len(c.Common().Args) != 1 {
+		return false
+	}
+	ex, ok := c.Common().Args[0].(*ssa.Extract)
+	if !ok || ex.Index != 0 {
+		return false
+	}
+	pk, ok := ex.Tuple.(*ssa.Call)
+	if !ok || callName(pk) != "PeekLine" {
+		return false
+	}
+	var prd ssa.Value
+	if pk.Common().IsInvoke() {
+		prd = pk.Common().Value
+	} else if len(pk.Common().Args) > 0 {
+		prd = pk.Common().Args[0]
+	}
+	return prd != nil && rd != nil && sameValue(stripMakeIface(prd), stripMakeIface(rd))
+}
